@@ -3,8 +3,6 @@
 package transaction
 
 import (
-	"math"
-
 	"github.com/elastos/Elastos.ELA/blockchain"
 	"github.com/elastos/Elastos.ELA/common"
 	"github.com/elastos/Elastos.ELA/common/config"
@@ -17,26 +15,6 @@ import (
 	"github.com/elastos/Elastos.ELA/dpos/state"
 	"github.com/elastos/Elastos.ELA/zzverif/nd"
 )
-
-// exact sum of non-negative amounts: ok is false when an amount is negative
-// or the mathematical sum does not fit an int64
-func zzExactSum(vs []common.Fixed64) (sum common.Fixed64, ok bool) {
-	ok = true
-	for _, v := range vs {
-		if v < 0 || sum > common.Fixed64(math.MaxInt64)-v {
-			ok = false
-			return
-		}
-		sum += v
-	}
-	return
-}
-
-func zzAmount(name string) common.Fixed64 {
-	v := common.Fixed64(nd.U64(name))
-	nd.Assume(uint64(v) <= 1<<60)
-	return v
-}
 
 // ZZ_C28_returndeposit: a return-deposit transaction of a producer that passes
 // its special context check and the fee check takes, in exact arithmetic, no
